@@ -374,22 +374,6 @@ def labelsCompare (j : Json) : Except String Json := do
 
 /-! ### C04: allocation validator and side-by-side execution -/
 
-/-- successors of a line that can be read off the instruction (targets given as literals / labels); `none` = indirect -/
-def staticSuccs (pc : Nat) (i : Instr PReg Float) : Option (List Nat) :=
-  let tgt (o : Opnd PReg Float) : Option Nat := match o with
-    | .num v => FloatSem.toAddr v
-    | .reg _ => none
-  let rel (o : Opnd PReg Float) : Option Nat := match o with
-    | .num v => FloatSem.toAddr (FloatSem.alu "add" [Float.ofNat pc, v])
-    | .reg _ => none
-  match i.kind with
-  | .jmp | .jal => (i.args.head?.bind tgt).map (fun n => [n])
-  | .br c => (i.args.getLast?.bind tgt).map (fun n => if c == "always" then [n] else [pc + 1, n])
-  | .brq _ _ => (i.args.getLast?.bind tgt).map (fun n => [pc + 1, n])
-  | .brr c => (i.args.getLast?.bind rel).map (fun n => if c == "always" then [n] else [pc + 1, n])
-  | .hcf | .bad _ => some []
-  | _ => some [pc + 1]
-
 def checkAlloc (j : Json) : Except String Json := do
   let text ← j.getObjValAs? String "text"
   let mapJ ← (← j.getObjVal? "map").getArr?
@@ -418,23 +402,27 @@ def checkAlloc (j : Json) : Except String Json := do
         ("reason", Json.str (if clash.isEmpty then "certificate-inconsistent" else "clash")),
         ("clash", Json.arr (clash.map (fun (d, v) => Json.arr #[Json.num (JsonNumber.fromNat d), Json.num (JsonNumber.fromNat v), Json.num (JsonNumber.fromNat (ρ d))])).toArray)])
     | none =>
-      -- every static edge, and every declared successor of an indirect jump, must be covered
+      -- every static edge (PV.Cfg.succs) and every declared successor of an indirect jump must be covered: the function
+      -- `edgesOk` of the theorem `checkAlloc_sound_static`
+      let declared : Nat → List Nat := fun pc => ((indirect.find? (fun (q : Nat × List Nat) => q.1 == pc)).map (fun (q : Nat × List Nat) => q.2)).getD []
+      let eok := PV.AllocCheck.edgesOk FloatSem.sem C pp.prog declared
       let edgeBad := pp.prog.zipIdx.findSome? (fun (i, pc) =>
-        let succs := match staticSuccs pc i with
+        let succs := match PV.Cfg.succs FloatSem.sem pc i with
           | some l => l
-          | none => ((indirect.find? (fun (q : Nat × List Nat) => q.1 == pc)).map (fun (q : Nat × List Nat) => q.2)).getD []
-        (succs.find? (fun n => n < pp.prog.length && !PV.AllocCheck.succOk C pc n)).map (fun n => (pc, n)))
-      let undeclared := pp.prog.zipIdx.filter (fun (i, pc) => (staticSuccs pc i).isNone && (indirect.find? (fun (q : Nat × List Nat) => q.1 == pc)).isNone)
-      match edgeBad with
-      | some (pc, n) => pure (Json.mkObj [("verdict", Json.str "reject"), ("line", Json.num (JsonNumber.fromNat pc)), ("reason", Json.str "edge"),
-          ("to", Json.num (JsonNumber.fromNat n))])
-      | none =>
-        if !undeclared.isEmpty then
-          pure (Json.mkObj [("verdict", Json.str "reject"), ("reason", Json.str "indirect-jump-without-declared-successors"),
-            ("line", Json.num (JsonNumber.fromNat ((undeclared.head?.map (·.2)).getD 0)))])
-        else
-          pure (Json.mkObj [("verdict", Json.str "accept"), ("lines", Json.num (JsonNumber.fromNat pp.prog.length)),
-            ("indirect", Json.num (JsonNumber.fromNat indirect.length))])
+          | none => declared pc
+        (succs.find? (fun n => !PV.AllocCheck.succOk C pc n)).map (fun n => (pc, n)))
+      let undeclared := pp.prog.zipIdx.filter (fun (i, pc) => (PV.Cfg.succs FloatSem.sem pc i).isNone && (indirect.find? (fun (q : Nat × List Nat) => q.1 == pc)).isNone)
+      if !eok then
+        match edgeBad with
+        | some (pc, n) => pure (Json.mkObj [("verdict", Json.str "reject"), ("line", Json.num (JsonNumber.fromNat pc)), ("reason", Json.str "edge"),
+            ("to", Json.num (JsonNumber.fromNat n))])
+        | none => pure (Json.mkObj [("verdict", Json.str "reject"), ("reason", Json.str "edge")])
+      else if !undeclared.isEmpty then
+        pure (Json.mkObj [("verdict", Json.str "reject"), ("reason", Json.str "indirect-jump-without-declared-successors"),
+          ("line", Json.num (JsonNumber.fromNat ((undeclared.head?.map (·.2)).getD 0)))])
+      else
+        pure (Json.mkObj [("verdict", Json.str "accept"), ("lines", Json.num (JsonNumber.fromNat pp.prog.length)),
+          ("indirect", Json.num (JsonNumber.fromNat indirect.length))])
 
 /-- run two programs with the same line structure side by side on the same environment and compare line, stack pointer,
     trace and halting status after every step -/
